@@ -169,6 +169,25 @@ pub fn run_plan<T: HCfg>(plan: &Value, detail: u8, emit: &mut dyn FnMut(&Value))
                 .collect()
         })
         .unwrap_or_default();
+    // frame-keyed link cuts [{from, to, at_frame, len}]: once peer `from` has reached `at_frame` the link
+    // from -> to loses everything for `len` ms (default: for the rest of the run)
+    let cuts: Vec<(usize, usize, i32, u64)> = plan
+        .get("cuts")
+        .and_then(|v| v.as_array())
+        .map(|a| {
+            a.iter()
+                .map(|k| {
+                    (
+                        pu(k, "from", 0) as usize,
+                        pu(k, "to", 0) as usize,
+                        pu(k, "at_frame", 0) as i32,
+                        pu(k, "len", 100_000_000),
+                    )
+                })
+                .collect()
+        })
+        .unwrap_or_default();
+    let mut cuts_done = vec![false; cuts.len()];
     let mut holds_done = vec![false; holds.len()];
     let mut kills_done = vec![false; kills.len()];
     let mut discs_done = vec![false; discs.len()];
@@ -275,6 +294,17 @@ pub fn run_plan<T: HCfg>(plan: &Value, detail: u8, emit: &mut dyn FnMut(&Value))
                 continue;
             }
             let cur = cur_of(&w, p);
+            for (i, (cf, ct, at, len)) in cuts.iter().enumerate() {
+                if !cuts_done[i] && *cf == p && cur >= *at {
+                    cuts_done[i] = true;
+                    outages.push(Outage {
+                        from: *cf as Addr,
+                        to: *ct as Addr,
+                        start: now,
+                        end: now.saturating_add(*len),
+                    });
+                }
+            }
             // kills / explicit disconnects keyed on this peer's frame
             for (i, (kp, at)) in kills.iter().enumerate() {
                 if !kills_done[i] && *kp == p && cur >= *at {
